@@ -167,14 +167,10 @@ class Aggregate(list):
                     msg = f"{clsnm} can't contain {arg} as list item: {member}"
                     raise TypeError(msg)
             else:
-                # ListElement
-                # FIXME validation
-                if type(member) is not str:
-                    msg = (
-                        f"{clsnm} can only contain str as list element, "
-                        f"not {member!r}"
-                    )
-                    raise TypeError(msg)
+                # ListElements are only valid for ``ElementList`` subclasses,
+                # which override this method.
+                msg = f"{clsnm} can't contain {member!r} as list item"
+                raise TypeError(msg)
             self.append(member)
 
     def _apply_residual_kwargs(self, **kwargs) -> None:
